@@ -704,8 +704,17 @@ impl BufferedDatabaseWriter {
             }
         }
         //at the end of the batch, update the daily log with all room dates that needs to be recomputed
-        daily_log.write(conn)?;
-        conn.execute("COMMIT", [])?;
+        if let Err(e) = daily_log.write(conn) {
+            conn.execute("ROLLBACK", [])?;
+            return Err(e);
+        }
+        if let Err(e) = conn.execute("COMMIT", []) {
+            //the transaction must not stay open: the next batch could not begin
+            if !conn.is_autocommit() {
+                conn.execute("ROLLBACK", [])?;
+            }
+            return Err(e);
+        }
 
         // run the PRAGMA optimize; outside the transaction
         if optimize {
